@@ -117,7 +117,7 @@ def from_py(n):
                 isinstance(a, ast.Starred) for a in n.args):
             raise Unsupported("star args")
         return ("call", from_py(n.func), tuple(from_py(a) for a in n.args),
-                tuple(sorted((k.arg, from_py(k.value)) for k in n.keywords)))
+                tuple((k.arg, from_py(k.value)) for k in n.keywords))
     if isinstance(n, ast.Subscript):
         if isinstance(n.slice, ast.Slice):
             raise Unsupported("slice")
@@ -168,7 +168,7 @@ def from_pm(e):
         return ("call", from_pm(e.function), tuple(from_pm(a) for a in e.parameters), ())
     if isinstance(e, p.CallWithKwargs):
         return ("call", from_pm(e.function), tuple(from_pm(a) for a in e.parameters),
-                tuple(sorted((k, from_pm(v)) for k, v in e.kw_parameters.items())))
+                tuple((k, from_pm(v)) for k, v in e.kw_parameters.items()))
     if isinstance(e, p.Subscript):
         return ("sub", from_pm(e.aggregate), from_pm(e.index))
     if isinstance(e, p.Lookup):
@@ -369,7 +369,7 @@ class Model:
                     elif self.peek() != ")":
                         raise ModelError("comma expected")
                 self.adv()
-                left = ("call", left, tuple(args), tuple(sorted(kw)))
+                left = ("call", left, tuple(args), tuple(kw))
             elif tk == "[":
                 self.adv()
                 idx = self.expr(0)
